@@ -34,6 +34,9 @@ def q2z(fr):
     return z3.RealVal(str(fr))  # "a/b" accepted
 
 
+TRIG_SIGN_AXIOMS = False
+
+
 class Encoder(object):
     def __init__(self, domain_terms=()):
         self.vars = {}
@@ -434,6 +437,20 @@ class Encoder(object):
             if other in self.fn_atoms:
                 o = self.fn_atoms[other]
                 self.axioms.append(v * v + o * o == 1)
+            # sign on the principal ranges (sound for every real argument); opt-in per obligation (`trig_sign_axioms'):
+            # the extra PI-dependent implications slow queries that do not need them
+            if not TRIG_SIGN_AXIOMS:
+                pass
+            elif name == 'cos':
+                pi = self.var('PI')
+                self.axioms.append(z3.Implies(z3.And(a > -pi / 2, a < pi / 2), v > 0))
+                self.axioms.append(z3.Implies(z3.And(a > pi / 2, a < 3 * pi / 2), v < 0))
+                self.axioms.append(z3.Implies(a == 0, v == 1))
+            else:
+                pi = self.var('PI')
+                self.axioms.append(z3.Implies(z3.And(a > 0, a < pi), v > 0))
+                self.axioms.append(z3.Implies(z3.And(a > -pi, a < 0), v < 0))
+                self.axioms.append(z3.Implies(a == 0, v == 0))
         elif name == 'tan':
             pass
         elif name == 'arctan':
@@ -646,6 +663,13 @@ def solve(enc, assertions, timeout_s=30, label='', want_model=True, tactic=None)
             model[name] = z3val_to_fraction(m.eval(v, model_completion=True))
         for name, v in enc.bvars.items():
             model[name] = z3.is_true(m.eval(v, model_completion=True))
+        # values of the transcendental atoms (aux names contain '!': never taken for inputs), for witness repair
+        for key, v in enc.fn_atoms.items():
+            try:
+                if z3.is_const(v) and str(v) not in model:
+                    model[str(v)] = z3val_to_fraction(m.eval(v, model_completion=True))
+            except Exception:
+                pass
     elif st == 'unknown':
         reason = s.reason_unknown()
     QUERY_LOG.append((label, st, dt))
